@@ -1,9 +1,46 @@
 import CotengraVerif.Driver.Util
+import CotengraVerif.Model.Cache
 
 namespace Cotengra.Driver.C13
-open Lean Cotengra Cotengra.Driver
+open Lean Cotengra Cotengra.Driver Cotengra.Cache
+
+/-- a request: JSON object field name -> canonical string of the value -/
+def queryOf (j : Json) : Except String (Query String) := do
+  let obj ← j.getObj?
+  let l := obj.toList.filterMap fun (k, v) => match v with
+    | .str s => some (k, s)
+    | _ => none
+  pure fun f => (l.lookup f).getD "<absent>"
+
+def fieldsOf (j : Json) : Except String (List String) := do
+  match ← (← field j "which").getStr? with
+  | "expr" => pure exprKeyFields
+  | "path" => pure pathKeyFields
+  | s => throw s!"which = {s}"
+
+/-- `c13.share_ok`: may the value cached for the first request be handed to the second? -/
+def shareOk : Handler := fun j => do
+  let fields ← fieldsOf j
+  let pairs ← (← arrOf (← field j "pairs")).mapM fun p => do
+    match ← arrOf p with
+    | [a, b] => pure (← queryOf a, ← queryOf b)
+    | _ => throw "pair"
+  pure (jObj [("ok", jArr (pairs.map fun (a, b) => jBool (shareOK fields a b)))])
+
+/-- `c13.run`: a history through the model cache; for every call the index (into `queries`) of
+    the request whose built value is returned -/
+def run : Handler := fun j => do
+  let fields ← fieldsOf j
+  let qs ← (← arrOf (← field j "queries")).mapM queryOf
+  let calls ← (← arrOf (← field j "calls")).mapM fun c => do
+    pure (← natOf (← field c "q"), ← (← field c "cache").getBool?)
+  let key : Nat → List String := fun i => match qs[i]? with
+    | some q => keyTuple fields q
+    | none => []
+  let cs : List (Call Nat (List String)) := calls.map fun (i, b) => ⟨i, b, fun _ => false⟩
+  pure (jObj [("origin", jNats (runCached key (fun i => i) [] cs))])
 
 /-- ops of property C13 (name them "c13.<op>") -/
-def handlers : List (String × Handler) := []
+def handlers : List (String × Handler) := [("c13.share_ok", shareOk), ("c13.run", run)]
 
 end Cotengra.Driver.C13
